@@ -447,8 +447,17 @@ func keptImplications(r *RuleCtx, occ map[string][]Pt, must []string) []string {
 		if !reach {
 			continue
 		}
+		// only the shape "an action is followed by its bookkeeping": the premise is a call, the conclusion a store into
+		// a field (plain, indexed, append). Pairs of other shapes hold on the reference tree for incidental reasons and
+		// break under behaviour-preserving restructuring (measured on the refactoring corpus).
+		if !(strings.HasPrefix(e1, "call:")) {
+			continue
+		}
 		for _, e2 := range keys {
 			if e1 == e2 {
+				continue
+			}
+			if !(strings.HasPrefix(e2, "store:") || strings.HasPrefix(e2, "store[]:") || strings.HasPrefix(e2, "append:")) {
 				continue
 			}
 			if _, bad := keptCounterexample(r, occ[e1], occ[e2], success); !bad {
@@ -587,7 +596,14 @@ func keptLoopLocalStill(fi *FuncInfo, name, hdr string) (msg string, decided boo
 				return
 			}
 			decided = true
-			if !(v.Pos() >= body.Pos() && v.Pos() < body.End()) {
+			declaredInBody := false
+			ast.Inspect(body, func(z ast.Node) bool {
+				if did, ok := z.(*ast.Ident); ok && info.Defs[did] == types.Object(v) {
+					declaredInBody = true
+				}
+				return !declaredInBody
+			})
+			if !declaredInBody && !(v.Pos() >= body.Pos() && v.Pos() < body.End()) {
 				msg = "variable " + name + " updated in the loop `" + hdr + "` is declared outside it: in the reference tree it started afresh in every iteration, now what one iteration (one message, one recipient, one entry) left in it is seen by the next"
 			}
 		}
